@@ -100,6 +100,10 @@ def direct_instances(ctx):
                 inst["tag"] = "exh2q"
                 insts.append(inst)
         ctx.exhaustive = True
+    for kind in ("trio", "quartet", "quintet", "threegen"):       # no variant at all
+        inst = md.make_instance(rng, kind=kind, ncols=0)
+        inst["tag"] = "empty"
+        insts.append(inst)
     for _ in range(ctx.n(1200, 20000)):
         inst = md.make_instance(rng)
         inst["tag"] = "rnd"
@@ -116,6 +120,14 @@ def evaluate_direct(ctx, insts, results, perturb=None):
         ctx.tally("direct.tag." + inst.get("tag", "replay"))
         if not inst["reads"]:
             ctx.tally("direct.no_reads")
+        ctx.tally("direct.ncols." + str(len(inst["positions"])))
+        ctx.tally("direct.n_individuals." + str(ped["n"]))
+        ctx.tally("direct.reads", len(inst["reads"]))
+        ctx.tally("direct.single_variant_reads", sum(1 for r in inst["reads"] if len(r["vars"]) == 1))
+        ctx.tally("direct.quality0_entries", sum(1 for r in inst["reads"] for v in r["vars"] if v[2] == 0))
+        ctx.tally("direct.recomb_cost0_columns", sum(1 for x in inst["recomb"] if x == 0))
+        ctx.tally("direct.index_order." + ("topological" if all(f < c and m < c for f, m, c in ped["triples"])
+                                           else "child_before_parent"))
         if res is None or "crash" in res:
             ctx.count(key, nontrivial=False)
             ctx.violation("pedmec:crash", f"PedigreeDPTable killed the process (rc {res and res.get('crash')}): "
@@ -212,7 +224,7 @@ def search_direct(ctx, n=4000):
 # ======================================================================================= CLI
 def run_cli_case(ctx, spec, wd):
     os.makedirs(wd, exist_ok=True)
-    sc, gts = md.build_cli_inputs(spec, wd)
+    sc, gts, override = md.build_cli_inputs(spec, wd)
     trace = os.path.join(wd, "trace.jsonl")
     for f in ("trace.jsonl", "out.vcf"):
         if os.path.exists(os.path.join(wd, f)):
@@ -222,8 +234,19 @@ def run_cli_case(ctx, spec, wd):
     if os.path.exists(trace):
         traces = [json.loads(l) for l in open(trace) if l.strip()]
     calls = md.parse_out_calls(os.path.join(wd, "out.vcf")) if rc == 0 else {}
-    chroms = ["chrA"] if spec["cost"] == "genmap" else sc.chroms
-    return {"spec": spec, "rc": rc, "err": err, "traces": traces, "calls": calls, "gts": gts, "chroms": chroms}
+    chroms = [spec["chromosome_arg"]] if spec["chromosome_arg"] else sc.chroms
+    forms = {"unsorted": 0, "prephased": 0, "missing_partial": 0, "missing_dot": 0}
+    for txt in override.values():
+        if "|" in txt:
+            forms["prephased"] += 1
+        elif txt in ("1/0",):
+            forms["unsorted"] += 1
+        if txt in ("0/.", "./1"):
+            forms["missing_partial"] += 1
+        elif txt in (".", ".|."):
+            forms["missing_dot"] += 1
+    return {"spec": spec, "rc": rc, "err": err, "traces": traces, "calls": calls, "gts": gts, "chroms": chroms,
+            "forms": forms}
 
 
 def evaluate_cli(ctx, runs, perturb=None):
@@ -238,19 +261,45 @@ def evaluate_cli(ctx, runs, perturb=None):
         ctx.tally("cli.kind." + spec["kind"])
         ctx.tally("cli.cost." + spec["cost"])
         ctx.tally("cli.genetic." + str(spec["genetic"]))
-        ctx.tally("cli.reads_members", len(spec["reads_for"]))
+        ctx.tally("cli.reads_mode." + spec["reads_mode"])
+        ctx.tally("cli.tag." + spec["tag"])
+        ctx.tally("cli.sample_arg." + spec["sample_arg"])
+        ctx.tally("cli.downsampling." + str(spec["downsampling"]))
+        ctx.tally("cli.nvars." + ("1-3" if spec["nvars"] <= 3 else "5+"))
+        ctx.tally("cli.nchrom." + str(spec["nchrom"]))
+        for opt in ("only_snvs", "no_reference", "merge_reads", "recomb_list", "noisy_reads"):
+            ctx.tally("cli.opt." + opt, int(bool(spec.get(opt))))
+        ctx.tally("cli.opt.phased_input", int(spec["phased_input"] is not None))
+        ctx.tally("cli.opt.chromosome_arg", int(spec["chromosome_arg"] is not None))
+        ctx.tally("cli.opt.unrelated_sample", int(spec["other"] is not None))
+        ctx.tally("cli.gt_forms_on", int(spec["gt_forms"] > 0))
+        for k, v in run["forms"].items():
+            ctx.tally("cli.gt_text." + k, v)
+        ctx.tally("cli.ped.founder_lines", sum(1 for l in spec["ped_text"] if l.split()[2:4] == ["0", "0"]))
+        ctx.tally("cli.ped.ignored_relationships",
+                  sum(1 for l in spec["ped_text"] if l and not l.startswith("#") and l.split()[1:4] not in spec["ped_lines"]
+                      and l.split()[2:4] != ["0", "0"]))
+        ctx.tally("cli.ped.comment_or_blank_lines", sum(1 for l in spec["ped_text"] if not l or l.startswith("#")))
         # is a later PED line's child alphabetically smaller than everything merged before it?
         for fam in spec["families"]:
             seen = []
+            kids = [t[0] for t in fam["trios"]]
             for ch, fa, mo in spec["ped_lines"]:
-                if ch in fam["children"]:
+                if ch in kids:
                     if seen and ch < min(seen):
                         ctx.tally("cli.ped_later_child_sorts_first")
                     seen += [ch, fa, mo]
         if run["rc"] != 0:
             ctx.count(json.dumps(spec, sort_keys=True), nontrivial=False)
-            sig = "phase:mendelian-conflict-raised" if "Mendelian conflict" in run["err"] else "phase:crash"
-            ctx.violation(sig, f"whatshap phase --ped failed (exit {run['rc']}): {run['err'][-500:]}", replay)
+            err = run["err"]
+            if spec["merge_reads"] and ("duplicate read name" in err or "not present in pedigree" in err):
+                # merged reads are re-created as "read<N>" with sample_id 0 / source_id 0 (whatshap/merge.py)
+                sig = "phase-ped:merge-reads-loses-read-identity"
+            elif "Error: Mendelian conflict" in err:
+                sig = "phase:mendelian-conflict-raised"
+            else:
+                sig = "phase:crash"
+            ctx.violation(sig, f"whatshap phase --ped failed (exit {run['rc']}; args {md.cli_args(spec)}): {err[-500:]}", replay)
             continue
         if perturb:
             perturb(run)
@@ -258,8 +307,9 @@ def evaluate_cli(ctx, runs, perturb=None):
         for tr in run["traces"]:
             traced.setdefault((tr["chromosome"], frozenset(tr["family"])), []).append(tr)
         for fam in spec["families"]:
-            members = [fam["father"], fam["mother"]] + fam["children"]
-            ped_trios = [tuple(l) for l in spec["ped_lines"] if l[0] in fam["children"]]      # (child, father, mother)
+            members = fam["members"]
+            kids = [t[0] for t in fam["trios"]]
+            ped_trios = [tuple(l) for l in spec["ped_lines"] if l[0] in kids]      # (child, father, mother)
             for chrom in run["chroms"]:
                 trs = traced.get((chrom, frozenset(members)), [])
                 if len(trs) != 1:
@@ -311,6 +361,14 @@ def evaluate_cli(ctx, runs, perturb=None):
                     ctx.tally("cli.forced_child_calls", len(forced))
                 tvs = tr["transmission_vector"]
                 ctx.tally("cli.transmission_changes", sum(1 for a, b in zip(tvs, tvs[1:]) if a != b))
+                ctx.tally("cli.family_instances")
+                ctx.tally("cli.family_shape." + fam["shape"])
+                parents_first = all(idx[f] < idx[c] and idx[m] < idx[c] for c, f, m in ped_trios)
+                ctx.tally("cli.family_order." + ("topological" if parents_first else "child_before_parent"))
+                ctx.tally("cli.superread_ties", sum(1 for srs in tr["superreads"] for sr in srs for _, a, _ in sr if a == 3))
+                ctx.tally("cli.solver_reads", len(tr["reads"]))
+                ctx.tally("cli.family_without_reads", int(not tr["reads"]))
+                ctx.tally("cli.family_without_accessible_variant", int(not tr["accessible_positions"]))
     if len(ctx.samples) < 4 and l1_meta:
         replay, tr, cmeta, ts = l1_meta[0]
         ctx.sample({"cli_spec": replay["cli"], "family": tr["family"], "trios": tr["trios"],
